@@ -202,6 +202,8 @@ class RFunc(object):
     equality = False           # domain has empty interior
     has_value = True
     open_domain = False        # domain is open (log barriers)
+    constrained = False        # domain has a closed boundary (tolerance used)
+    fold = False               # see `reduce_problem`
     children = ()
 
     def __init__(self, sp):
@@ -238,7 +240,28 @@ class RFunc(object):
         return out
 
 
+_STRICT = [False]
+
+
+class strict_membership(object):
+    """Inside this context membership is judged with the plain rounding
+    tolerance ``16 n eps scale`` of the point itself (used for *probes*: a
+    probe that is counted as feasible although it lies outside the set by
+    delta falsifies the certificate by slope*delta), outside with the wider
+    tolerance that also absorbs the library's deliberate shrink (used for
+    the point p under test)."""
+
+    def __enter__(self):
+        self.old = _STRICT[0]
+        _STRICT[0] = True
+
+    def __exit__(self, *a):
+        _STRICT[0] = self.old
+
+
 def _tol(n, scale):
+    if _STRICT[0]:
+        return IND_K * max(int(n), 1) * EPS * max(float(scale), 1e-300)
     return (IND_K * max(int(n), 1) + SHRINK_K) * EPS * \
         max(float(scale), 1e-300)
 
@@ -393,6 +416,7 @@ class RNuclear(RFunc):
 
 class RIndicator(RFunc):
     pure_indicator = True
+    constrained = True
 
     def ev(self, v, amb=0.0):
         ex, tol = self.excess(v, amb)
@@ -532,6 +556,7 @@ class RIndNuclearBall(RIndicator):
 class RIndZero(RFunc):
     """constant at 0, inf elsewhere ( `IndicatorZero` )."""
     equality = True
+    constrained = True
 
     def __init__(self, sp, constant=0.0):
         RFunc.__init__(self, sp)
@@ -688,6 +713,7 @@ class RKLConj(RFunc):
 
 class RKLCE(RFunc):
     """int g - x + x log(x/g) for x >= 0 (0 log 0 = 0), else inf; g > 0."""
+    constrained = True
 
     def __init__(self, sp, prior=None):
         RFunc.__init__(self, sp)
@@ -738,6 +764,8 @@ class RTranslate(RFunc):
         self.equality = h.equality
         self.has_value = h.has_value
         self.open_domain = h.open_domain
+        self.constrained = h.constrained
+        self.fold = h.fold
 
     def _amb(self, v, amb):
         return max(amb, float(np.abs(v).max()) if np.size(v) else 0.0,
@@ -773,6 +801,8 @@ class RArgScale(RFunc):
         self.equality = h.equality
         self.has_value = h.has_value
         self.open_domain = h.open_domain
+        self.constrained = h.constrained
+        self.fold = h.fold
 
     def _amb(self, v, amb):
         sm = float(np.max(np.abs(self.s)))
@@ -807,6 +837,8 @@ class RLeftScale(RFunc):
         self.equality = h.equality
         self.has_value = h.has_value
         self.open_domain = h.open_domain
+        self.constrained = h.constrained
+        self.fold = h.fold
 
     def ev(self, v, amb=0.0):
         val, mag = self.h.ev(v, amb)
@@ -848,6 +880,10 @@ class RQuadPert(RLeftScale):
                   else np.asarray(u, dtype=float).ravel())
         self.c = float(c)
         self.pure_indicator = False
+        # a linear / quadratic term on top of a constraint: the multiplier of
+        # the constraint is no longer bounded by |x - p|/sigma, so the
+        # certificate is evaluated after completing the square
+        self.fold = h.fold or h.constrained
 
     def ev(self, v, amb=0.0):
         val, mag = self.h.ev(v, amb)
@@ -875,6 +911,8 @@ class RSepSum(RFunc):
         self.equality = any(p.equality for p in parts)
         self.has_value = all(p.has_value for p in parts)
         self.open_domain = any(p.open_domain for p in parts)
+        self.constrained = any(p.constrained for p in parts)
+        self.fold = any(p.fold for p in parts)
 
     def ev(self, v, amb=0.0):
         val, mag = 0.0, 0.0
@@ -919,6 +957,8 @@ class RCompose(RFunc):
         self.equality = h.equality
         self.has_value = h.has_value
         self.open_domain = h.open_domain
+        self.constrained = h.constrained
+        self.fold = h.fold
 
     def _amb(self, v, amb):
         return max(amb, float(np.abs(v).max()) if np.size(v) else 0.0) * \
@@ -1000,10 +1040,14 @@ def descend(node, p, x, sigma):
 def reduce_problem(node, p, x, sigma):
     """List of (node', p', x', sigma') with ``node'.has_value`` such that the
     original statement holds iff all of them hold (exact identities only,
-    see `descend`)."""
+    see `descend`).  Nodes with values are kept as they are, except where a
+    linear/quadratic perturbation sits on top of a constraint set
+    (``fold``): there the square is completed first, so that the slope of
+    the objective at p along the constraint is (x' - p)/sigma' and the
+    rounding tolerances, which are stated in terms of |x' - p|, apply."""
     p = np.asarray(p, dtype=float)
     x = np.asarray(x, dtype=float)
-    if node.has_value:
+    if node.has_value and not node.fold:
         return [(node, p, x, sigma)]
     kids = descend(node, p, x, sigma)
     if kids is None:
